@@ -13,7 +13,7 @@ Import ListNotations.
 Require Import MV.Lib.Base MV.C16.Gen.
 Open Scope Z_scope.
 
-Definition face := list Z.
+Notation face := (list Z) (only parsing).
 Definition zlen {A} (l : list A) : Z := Z.of_nat (length l).
 
 (* ------------------------------------------------------------------ small list utilities *)
